@@ -503,6 +503,22 @@ class C12(MsgProp):
             for mid in special + early_fail + late_fail[:1]:
                 yield ("BUILDSEQ " + r.choice(big) + " ; " + mid + " ; " + t, "dirty-refused-target", True)
             yield ("BUILDSEQ " + r.choice(big) + " ; E ; C ; " + t, "dirty-refused-target", True)
+        # sessions that also go through the crate's second build entry point, build_generated_message (feature
+        # test_gen, on by default; outside the Lean model, oracle only): short frame, generated frame(s), target
+        shorts = [m for L, m in sized if L <= 40][:40] or pool[:10]
+        tg = [m for L, m in sized][:: max(1, len(sized) // 60)]
+        for i in range(400 if ctx.tier == "quick" else 3000):
+            gsteps = " ; ".join("G %d %d" % (r.choice(g.numbers), r.randrange(1 << 30)) for _ in range(r.choice([1, 1, 2, 3])))
+            shape = i % 4
+            if shape == 0:
+                op = r.choice(shorts) + " ; " + gsteps + " ; " + r.choice(tg)
+            elif shape == 1:
+                op = gsteps + " ; " + r.choice(tg)
+            elif shape == 2:
+                op = r.choice(shorts) + " ; " + gsteps
+            else:
+                op = r.choice(tg) + " ; " + gsteps + " ; " + r.choice(early_fail + late_fail + special) + " ; " + r.choice(tg)
+            yield ("BUILDSEQG " + op, "sessions-with-generated-builds", True)
         n_seq = 150 if ctx.tier == "quick" else 2500
         for _ in range(n_seq):
             k = r.randrange(1, 7 if ctx.tier == "quick" else 11)
